@@ -40,7 +40,9 @@ impl<const PAD: usize> Tr<PAD> {
 }
 
 impl<const PAD: usize> Default for Tr<PAD> {
+    /// `Default` counts as caller-supplied code: it is a fault point of the call plan.
     fn default() -> Self {
+        ledger::tick("default");
         Self::new()
     }
 }
@@ -99,6 +101,7 @@ impl TrZ {
 }
 impl Default for TrZ {
     fn default() -> Self {
+        ledger::tick("default");
         Self::new()
     }
 }
